@@ -1,9 +1,30 @@
 from check import run_diff_property
 
+def over_limit(o, i):
+    """the reader handed out a frame whose payload is larger than the configured read limit (a concrete failing input)"""
+    if not o.startswith('frd '):
+        return False
+    try:
+        kv = dict(t.split('=', 1) for t in o.split(' ')[1:])
+        limit, b = int(kv['max']), bytes.fromhex(kv['b'])
+        yielded = [t for t in i.split(' ') if t and not t.startswith('err:') and t not in ('eof', 'panic')]
+        pos = 0
+        for _ in yielded:
+            if pos + 9 > len(b):
+                return False
+            n = int.from_bytes(b[pos:pos + 3], 'big')
+            if n > min(limit, (1 << 24) - 1):
+                return True
+            pos += 9 + n
+    except Exception:
+        return False
+    return False
+
+
 CFG = dict(
     streams=[('frame', 2500, 40000)],
     oracle_ops={'frt', 'frtmeta', 'frdspec'},
-    self_evident=lambda o, i: i.startswith('panic'),
+    self_evident=lambda o, i: 'panic' in i or over_limit(o, i),
     rule=("every Write* method with boundary parameters (stream ids 0, 1, 2^31-1, 2^31, 2^32-1; payloads 0..16384 bytes; padding "
           "0..255 and 256, non-zero pad bytes; priority with reserved bit; settings incl. INITIAL_WINDOW_SIZE 2^31; window increments "
           "0, 1, 2^31-1, 2^31; raw frames of every type 0..10 and 200 with arbitrary flags and short/odd lengths): written bytes "
